@@ -63,7 +63,7 @@ def random_case(rng: random.Random):
         alpha = [-3, -2, -1, 0, 1, 2, 3]
         sc = [rng.choice(alpha) for _ in range(n)]
         ms = rng.randint(1, 5)
-        bs = rng.randint(1, 6)
+        bs = rng.randint(0, 6)
     elif style < 0.8:     # realistic: sp - dp*|shift| and unmatched penalties
         sp, su = rng.choice([(1000, -250), (1000, -500), (400, -250), (100, -100)])
         sc = []
@@ -74,7 +74,7 @@ def random_case(rng: random.Random):
             else:
                 sc.append(su)
         ms = rng.choice([sp, 2 * sp, 1000, 250, 1])
-        bs = rng.choice([1200, 250, 500, sp, 1, 2 * sp])
+        bs = rng.choice([1200, 250, 500, sp, 1, 0, 2 * sp])
     else:                 # runs of positives separated by deep valleys
         sc = []
         while len(sc) < n:
@@ -82,7 +82,7 @@ def random_case(rng: random.Random):
             sc += [-rng.randint(1, 6) for _ in range(rng.randint(1, 3))]
         sc = sc[:n]
         ms = rng.randint(1, 8)
-        bs = rng.randint(1, 8)
+        bs = rng.randint(0, 8)
     kd = ["P" if s > 0 else rng.choice(["P", "R", "Q", "R", "Q"]) for s in sc]
     return {"sc": sc, "kd": kd, "ms": ms, "bs": bs}
 
@@ -112,12 +112,12 @@ def run(ctx: Ctx):
     quick = ctx.tier == "quick"
     rng = random.Random(ctx.seed * 7919 + 13)
     ctx.rule = ("inputs: (i) the InputSpace of MC_Segmenter exported by TLC (all score sequences up to MaxLen over "
-                "{-3,-1,0,1,2,3} x ms{1,2,3} x bs{1,2,3,5}), (ii) random sequences of length 5..40 in three styles "
+                "{-3,-1,0,1,2,3} x ms{1,2,3} x bs{0,1,2,3,5}), (ii) random sequences of length 5..40 in three styles "
                 "(small alphabet, realistic sp/dp/su scores, runs and valleys); each is run through the real "
                 "AlignmentSegmentsFactory and judged by TLC (Trace_Segmenter: C13 clauses + Impl replay). "
                 "non-trivial = distinct input whose real result has >= 2 segments, or one segment followed/preceded by "
                 "rejected positions, or an empty result with ms<=bs although a positive pair exists")
-    ctx.assumptions = ["domain of C13: ms >= 1, bs >= 1, unpaired positions score <= 0 (DESIGN.md 4/C13)",
+    ctx.assumptions = ["domain of C13: ms >= 1, bs >= 0 (bs = 0: see Segmenter.tla - strict reading of 'falls', no right-maximality), unpaired positions score <= 0 (DESIGN.md 4/C13)",
                        "the converse of the last sentence is demanded only where ms <= bs",
                        "scores are integers or halves (scaled); the real builder is fed exact binary floats"]
 
